@@ -395,7 +395,11 @@ func c19Build(rs []c19Reg) *modbus.Regs {
 	// the registers are added in the order of the list; where the next one is the next address the first is added
 	// on its own and then once more as part of a range of two (as an application with a 16-bit and a 32-bit value at
 	// one address does): the map is the same list either way
-	for i := 0; i < len(rs); i++ {
+	a0 := 0
+	if len(rs) > 0 {
+		a0 = rs[0].Addr
+	}
+	for _, i := range declOrder(len(rs), a0) {
 		regs.AddReg(rs[i].Addr, 1)
 		if i+1 < len(rs) && rs[i+1].Addr == rs[i].Addr+1 && (rs[i].Addr+len(rs))%2 == 0 {
 			regs.AddReg(rs[i].Addr, 2)
